@@ -13,7 +13,8 @@ INF = float('inf')
 PRIOS = [0, 0.0, 1, 1.5, 1.5, 2, -1, 3.25, INF, -INF]
 
 RULE = ('direct cases: one evaluation = one op history (add, re-add, remove, '
-        'pop, peek smallest/largest, empty, clear, iteration) on a real '
+        'pop, peek smallest/largest, empty, clear, iteration; one in six a bulk '
+        'history of 30-200 entries with many removes and re-adds) on a real '
         'TaskQueue; rt-shadow / nrt-shadow cases: one simulated run whose '
         'live queues are mirrored into the model; distinct = distinct history '
         'hash / schedule signature; non-trivial = the history contains a tie '
@@ -33,6 +34,8 @@ def gen_case(tp, tier):
         from . import rprog
         feat = {'tempo_clocks': True, 'sends': True, 'app': True}
         return {'kind': kind, 'prog': rprog.gen(tp, feat, tier)}
+    if tp.draw(6) == 0:
+        return gen_bulk(tp, tier)
     n = 5 + tp.draw(56 if tier != 'thorough' else 120)
     ntasks = 2 + tp.draw(7)
     nprio = 1 + tp.draw(5)
@@ -57,6 +60,37 @@ def gen_case(tp, tier):
         else:
             ops.append(['clear'] if tp.draw(4) == 0 else ['pop'])
     return {'kind': 'direct', 'ops': ops, 'ntasks': ntasks,
+            'task_kinds': [tp.draw(4) for _ in range(ntasks)]}
+
+
+def gen_bulk(tp, tier):
+    """A long-lived queue: many entries in arbitrary time order, then many
+    removes and re-adds (lazily deleted entries pile up), then everything is
+    popped while a few more entries arrive."""
+    ntasks = 30 + tp.draw(70 if tier != 'thorough' else 170)
+    nprio = 3 + tp.draw(20)
+    ops = []
+    for t in range(ntasks):
+        ops.append(['add', tp.draw(nprio) * tp.choice([1, 1, 0.5]), t])
+    for _ in range(ntasks // 2 + tp.draw(ntasks)):
+        t = tp.draw(ntasks)
+        if tp.draw(3) == 0:
+            ops.append(['add', tp.draw(nprio), t])          # re-add: moves
+        else:
+            ops.append(['remove', t])
+        if tp.draw(12) == 0:
+            ops.append(tp.choice([['peek', True], ['peek', False], ['len'],
+                                  ['empty'], ['pop']]))
+    ops.append(['iter'])
+    for _ in range(ntasks + 4):
+        r = tp.draw(10)
+        if r == 0:
+            ops.append(['add', tp.draw(nprio), tp.draw(ntasks)])
+        elif r == 1:
+            ops.append(['peek', bool(tp.draw(2))])
+        ops.append(['pop'])
+    ops.append(['empty'])
+    return {'kind': 'direct', 'ops': ops, 'ntasks': ntasks, 'bulk': True,
             'task_kinds': [tp.draw(4) for _ in range(ntasks)]}
 
 
@@ -195,11 +229,15 @@ def run_direct(case):
             break
     h = hashlib.sha1(repr(case['ops']).encode()).hexdigest()
     return {'violations': viol.items,
-            'probes': {'direct-history': 1, 'ties': ties, 'readds': readds},
+            'probes': dict({'direct-history': 1, 'ties': ties,
+                            'readds': readds},
+                           **({'bulk-history': 1} if case.get('bulk')
+                              else {})),
             'faults': {}, 'outcome': 'ok', 'steps': len(case['ops']),
             'vtime': 0.0, 'sig': h[:16], 'digest': h,
             'nontrivial': ties > 0 or readds > 0,
-            'sample': {'ops': case['ops'][:12]}, 'features': ['direct']}
+            'sample': {'ops': case['ops'][:12]},
+            'features': ['direct-bulk' if case.get('bulk') else 'direct']}
 
 
 def same_entry(a, b):
